@@ -216,10 +216,21 @@ def main(tier):
     # (d) Markdown: the blocks of the `[//]: #` pass and of the HTML-comment pass all come out, each once
     from . import mdhtml
     mm_tasks = [(1, 1), (2, 1), (1, 2), (2, 2)] + ([(3, 2), (2, 3), (3, 3), (0, 2), (2, 0)] if tier == 'thorough' else [])
+    mm_bad = False
     for r in pmap(mdhtml.run_mdmerge, mm_tasks, chunksize=1):
         r2 = dict(r)
         r2['samples'] = []
+        mm_bad = mm_bad or bool(r.get('violations'))
         agg.add(r2)
+    if not mm_bad:
+        pv = dict(role='sample', summary='passing path')
+        mdhtml.confirm_mdmerge(binary, PROP, pv, 90)
+        if pv.get('confirmed'):
+            msg = 'Markdown two-pass replay disagrees with the real binary on a passing path: observed %s expected %s' % (pv.get('observed'), pv.get('expected'))
+            agg.validation_failures.append(msg)
+            agg.engine_errors.append({'engine_error': 'translator validation: ' + msg})
+        else:
+            agg.validated += 1
     by_role = {}
     for v in agg.violations:
         by_role.setdefault(v['role'], []).append(v)
